@@ -1,11 +1,16 @@
 (* C06 — PROV-N output is well-formed and denotes the same document.
    Proved: string contents are recovered exactly for every byte string — quotes,
    newlines, backslashes — in both literal forms, at string level and at lexer level.
-   The reader (ProvnSpec.v) is the executable specification of "denotes"; the whole-
-   document statement is given below and decided per run by running the extracted
-   reader on the implementation's text (partial). *)
+   The reader (ProvnSpec.v) is the executable specification of "denotes".  Value level:
+   the tokens of a printed value read back as the value (C06_value theorems).  Record
+   level (C06_record): the line printed for a record — name, optional identifier, the
+   formal arguments in order with '-' for the absent ones, the bracketed attribute list —
+   is cut by the specification's lexer into tokens which its expression parser reads as
+   the record: kind, identifier URI, formal arguments, every other attribute value in
+   order.  The document framing (declarations, bundles) is decided per run by running
+   the extracted reader on the implementation's text (partial). *)
 From Coq Require Import String Ascii List ZArith.
-From Prov Require Import Str Sexp Spec Nsm Values Record World Provn ProvnSpec ProvnProofs IsoProofs SpecProofs ProvnSpecProofs.
+From Prov Require Import Str Sexp Spec Nsm Values Record World Provn ProvnSpec ProvnProofs IsoProofs SpecProofs ProvnSpecProofs ProvnRecProofs.
 Import ListNotations.
 Open Scope string_scope.
 
@@ -121,3 +126,46 @@ Lemma C06_F3_refuted :
   ProvnSpec.read (doc_provn (mkD (mkB None ex_m [mkRec "Entity" (Some (exq "e")) [(exq "k", [VId "http://x/a""b"])]] []) []))
   = None.
 Proof. vm_compute. reflexivity. Qed.
+
+(* ---- record level.  rec_name: the PROV-N name of the record's kind; formal_ok: an absent formal argument
+   prints '-', a reference prints a name of word characters that resolves in the reader's table to its URI, a
+   time prints its ISO form; pair_ok: an attribute name made of word characters that resolves to its URI and a value
+   the value-level theorems cover (VSpec: vspec_str, vspec_int, vspec_time, vspec_bool, vspec_float, vspec_id,
+   vspec_qn, vspec_lang, vspec_foreign).  The text may be followed by anything (rest). *)
+Theorem C06_record : forall t r cs,
+  word_ok (rec_name r) ->
+  kind_by_name (rec_name r) = Some (rkind r, formal_attrs (rkind r), is_element (rkind r)) ->
+  match rid r with
+  | Some q => word_ok (qn_str q) /\ nresolve t (qn_str q) = Some (qn_uri q) /\ qn_str q <> "-"
+  | None => is_element (rkind r) = false
+  end ->
+  (is_element (rkind r) = true \/ formal_attrs (rkind r) <> []) ->
+  Forall2 (fun lv c => formal_ok t (fst lv) (snd lv) c) (combine (formal_attrs (rkind r)) (rec_fvals r)) cs ->
+  Forall (pair_ok t) (rec_extras r) ->
+  exists k body, forall rest f toks, lex f rest = Some toks ->
+    lex (k + f) (record_provn r ++ rest) = Some (TWord (rec_name r) :: TLpar :: body ++ toks)%list /\
+    forall fuel, length (rec_items0 r) + length (rec_fvals r) + length (rec_extras r) < fuel ->
+      read_expr fuel t (rec_name r) (body ++ toks)
+      = Some (L [A "rec"; A (spec_prov_uri ++ rkind r); rec_idc r; L (concat cs ++ map content_pair (rec_extras r))], toks).
+Proof. exact provn_record. Qed.
+Print Assumptions C06_record.
+
+(* the attribute list alone, for any number of pairs *)
+Theorem C06_attribute_list : forall t es, es <> [] -> Forall (pair_ok t) es ->
+  exists k ts, forall rest f toks, lex f rest = Some toks ->
+    lex (k + f) (concat_str ", " (map item_text es) ++ "]" ++ rest) = Some (ts ++ TRbr :: toks)%list /\
+    forall fuel, length es <= fuel -> read_attrs fuel t (ts ++ TRbr :: toks) = Some (map content_pair es, toks).
+Proof. exact attrs_spec. Qed.
+
+(* the premises hold for a usage with an identifier, one present and two absent formal arguments, a
+   two-valued attribute and a type *)
+Example C06_record_applies :
+  exists k body, forall rest f toks, lex f rest = Some toks ->
+    lex (k + f) (record_provn p_r ++ rest) = Some (TWord "used" :: TLpar :: body ++ toks)%list /\
+    forall fuel, 6 < fuel ->
+      read_expr fuel p_t "used" (body ++ toks)
+      = Some (L [A "rec"; A (spec_prov_uri ++ "Usage"); A "http://e/u";
+                 L [L [A (spec_prov_uri ++ "activity"); L [A "qn"; A "http://e/a"]];
+                    L [A "http://e/k"; L [A "int"; sx_Z 5]]; L [A "http://e/k"; L [A "str"; A "x"]];
+                    L [A (spec_prov_uri ++ "type"); L [A "qn"; A "http://e/T"]]]], toks).
+Proof. exact provn_record_applies. Qed.
